@@ -136,7 +136,19 @@ def main(tier, seed):
     predicted = [h for h in hists if any(a["collided"] for a in h)]
     with_analysis = [h for h in hists if sum(1 for a in h if a["a"] == "analyze") >= 2 and not any(a["collided"] for a in h)]
     rng.shuffle(with_analysis)
-    sample = with_analysis[: (60 if quick else 600)] + predicted[: (25 if quick else 200)]
+    # cover every ordered pair of programs analysed one after the other (a later analysis may be influenced by
+    # what an earlier one left behind), then fill up with a seeded sample
+    need = {(a, b) for a in prog_ids for b in prog_ids}
+    cover, rest = [], []
+    for h in with_analysis:
+        seq = [x["p"] for x in h if x["a"] == "analyze"]
+        pairs = {(seq[k], seq[k + 1]) for k in range(len(seq) - 1)} & need
+        if pairs and all(x["a"] == "analyze" for x in h):
+            cover.append(h)
+            need -= pairs
+        else:
+            rest.append(h)
+    sample = cover + rest[: (40 if quick else 600)] + predicted[: (25 if quick else 200)]
     # ---- replay each behaviour in one real process
     jobs = []
     for i, h in enumerate(sample):
